@@ -413,14 +413,19 @@ func ruleIdleRelease(c *Ctx, rule string) {
 		fmt.Sprintf("all %d exits after the go statement have closed the stop channel", nret),
 		fmt.Sprintf("%d of %d exits leave the idling goroutine running for ever", bad, nret))
 	// result channel buffered, goroutine only sends on it
-	target, _ := goInstr.Call.Value.(*ssa.MakeClosure)
-	if target == nil {
-		c.undecided(rule, "IDLE goroutine", goInstr.Pos(), "goroutine is not a closure")
+	var targetFn *ssa.Function
+	if mc, ok := goInstr.Call.Value.(*ssa.MakeClosure); ok {
+		targetFn, _ = mc.Fn.(*ssa.Function)
+	} else {
+		targetFn = goInstr.Call.StaticCallee() // `go c.runIdle(stop, done)`
+	}
+	if targetFn == nil || targetFn.Blocks == nil {
+		c.undecided(rule, "IDLE goroutine", goInstr.Pos(), "the goroutine's function cannot be resolved")
 		return
 	}
 	okSend := true
 	nsend := 0
-	for _, f := range withAnon(target.Fn.(*ssa.Function)) {
+	for _, f := range withAnon(targetFn) {
 		allInstrs(f, func(i ssa.Instruction) {
 			if s, ok := i.(*ssa.Send); ok {
 				nsend++
@@ -441,7 +446,7 @@ func ruleIdleRelease(c *Ctx, rule string) {
 	c.check(okSend && nsend > 0, rule, "IDLE goroutine sends only to a buffered channel", goInstr.Pos(),
 		fmt.Sprintf("%d sends, all to a channel made with capacity ≥ 1: the goroutine can always finish", nsend),
 		"the idling goroutine sends its result on an unbuffered channel: it blocks for ever when the handler has already returned")
-	c.check(hasRecoverIn(target.Fn.(*ssa.Function)), rule, "IDLE goroutine recovers", goInstr.Pos(), "deferred recover present", "no deferred recover in the idling goroutine")
+	c.check(hasRecoverIn(targetFn), rule, "IDLE goroutine recovers", goInstr.Pos(), "deferred recover present", "no deferred recover in the idling goroutine")
 }
 
 func hasRecoverIn(fn *ssa.Function) bool {
@@ -512,6 +517,24 @@ func chanSources(v ssa.Value, seen map[ssa.Value]bool) []ssa.Value {
 		return []ssa.Value{x}
 	case *ssa.ChangeType:
 		return chanSources(x.X, seen)
+	case *ssa.Parameter:
+		// a channel handed to a function started with `go f(ch)` (or called)
+		fn := x.Parent()
+		idx := -1
+		for i, q := range fn.Params {
+			if q == x {
+				idx = i
+			}
+		}
+		var out []ssa.Value
+		if gateProg != nil && idx >= 0 {
+			for _, site := range callSitesOf(gateProg, fn) {
+				if args := site.Common().Args; idx < len(args) {
+					out = append(out, chanSources(args[idx], seen)...)
+				}
+			}
+		}
+		return out
 	}
 	return nil
 }
